@@ -134,6 +134,16 @@ CHECKS = {
             'TLA+ is generator and class oracle only (it does not parse YAML); which documents are valid is not specified. Exploration '
             'level: the mutation space of 5 base documents x 12 kinds, not all texts.',
             'TLA+-enumerated structure-aware mutation space, outcomes judged by TLC', '6.8'),
+    'C02': ('engine', 'model_checking',
+            'Programs of the deterministic class (generated DAGs with all-joins, per-task publishers, sub-workflows, with-items; '
+            'catalogue shapes) are each run 6 (thorough 16) times on the real engine - both schedulers, 7 schedule policies, '
+            'specification-cache eviction on/off between steps; TLC compares the final outcomes (EngineDetTrace: CameToRest, '
+            'Deterministic - execution state and evaluated output, per task state / published variables / routed-to set, accepted action '
+            'results). Model level: TLC checks confluence of MistralEngine (a single terminal projection over all interleavings) on the '
+            'deterministic catalogue shapes.',
+            ENG_NOTE + ' Row-id order of sibling rows is not controlled (the known id-order dependence of context versioning is not explored); '
+            'diagnostic text under output.result of failed executions is excluded from the comparison.',
+            'TLC comparison of final outcomes of many real runs per program + model-level confluence check', '5, 7-C02'),
 }
 
 NOT_YET = 'check not built yet (build in progress; see DESIGN.md section 12)'
